@@ -44,6 +44,19 @@ def run (args : List Sexp) : Sexp :=
         match i with
         | .list [_, _, _, _, .atom c] => ScanClass.ofStr? c
         | _ => none
+      -- as coded (recorded finding C13-broken-document-cuts-the-file): the scanner stops reading a file at a document
+      -- it cannot parse, so an unreadable document placed inside the good file, before its (seed mod n)-th document,
+      -- loses that document and all the later ones of the file
+      let cut : Option Nat := (Sexp.fields "inj" rest).findSome? fun i =>
+        match i with
+        | .list [_, .atom kind, .atom "middle", seed, .atom "unreadable"] =>
+            if kind == "truncate" || kind == "tabs" || kind == "notyaml" then seed.nat?.map (· % objs.length) else none
+        | _ => none
+      let objs := match cut with | some k => objs.take k | none => objs
+      -- nothing could be read at all (every document of the input is lost or unreadable): ConnlistFromDirPath fails
+      if cut.isSome && objs.isEmpty && classes.all (· == .unreadable) then
+        .list [.atom "baddoc", id, .list [.atom "err", .atom "other"]]
+      else
       .list [.atom "baddoc", id, outcome objs classes stop]
   | _ => .atom "bad-case"
 
